@@ -449,6 +449,7 @@ func runInterop(t fataler, c *interopCase) {
 		}
 	}
 	trailing := !groupStart
+	delivered := make([][]byte, 0, len(exp))
 	for i, e := range exp {
 		got, err := bt.V2ReceivePacket(e.aad)
 		if err != nil {
@@ -456,6 +457,13 @@ func runInterop(t fataler, c *interopCase) {
 		}
 		if !bytes.Equal(got, e.contents) {
 			t.Fatalf("V2ReceivePacket: packet %d delivered as %x, sent %x", i, head(got), head(e.contents))
+		}
+		delivered = append(delivered, got)
+	}
+	// the delivered contents stay what was sent while later packets are received
+	for i, e := range exp {
+		if !bytes.Equal(delivered[i], e.contents) {
+			t.Fatalf("V2ReceivePacket: contents delivered for packet %d of %d changed to %x after later packets were received, sent %x", i, len(exp), head(delivered[i]), head(e.contents))
 		}
 	}
 	if trailing {
@@ -642,10 +650,17 @@ func TestLoopback(t *testing.T) {
 					want = append(want, contents)
 				}
 			}
+			delivered := make([][]byte, 0, len(want))
 			for i, c := range want {
 				got, err := to.V2ReceivePacket(nil)
 				if err != nil || !bytes.Equal(got, c) {
 					t.Fatalf("%s non-decoy packet %d: received err=%v %x, sent %x", dir, i, err, head(got), head(c))
+				}
+				delivered = append(delivered, got)
+			}
+			for i, c := range want {
+				if !bytes.Equal(delivered[i], c) {
+					t.Fatalf("%s non-decoy packet %d: delivered contents changed to %x after later packets were received, sent %x", dir, i, head(delivered[i]), head(c))
 				}
 			}
 			if got, err := to.V2ReceivePacket(nil); err == nil {
